@@ -153,7 +153,7 @@ Definition sstep (o : op) (s : sst) : status * sst :=
       if negb (kind_eqb (vkind v) KMem && kind_eqb (vkind mv) KMem) then (Skip, s) else
       match svars s mv with
       | None => (Skip, s)
-      | Some None => (Done, sstore s v None)
+      | Some None => (Err, s)
       | Some (Some m) =>
           let x := geto s m in
           if so_inpool x then (Skip, s) else
